@@ -56,7 +56,7 @@ META = dict(
     bounds=dict(
         quick="all terms with <=2 constructors (parameter deviation rules in terms(); U4 two-constructor terms with the lean sets); "
         "U1 <=2 parents x <=2 children, U2 <=2 items x <=2 tags all link subsets, U4 1 company x <=2 persons x <=1 machine (sorted type vectors)",
-        thorough="all terms with <=3 constructors; U1 <=2 parents x <=3 children, U2 <=3x2, U4 <=2 companies x <=2 persons x <=1 machine",
+        thorough="all terms with <=3 constructors; U1 <=2 parents x <=3 children, U2 <=3x2, U4 1 company x <=2 persons x <=1 machine + 2 companies x 2 persons of different types",
     ),
 )
 SHARD_TIMEOUT = dict(quick=900, thorough=3000)
@@ -889,8 +889,13 @@ def datasets(U, tier):
     if U == "U2":
         return list(qw.u2_datasets(2, 2) if tier == "quick" else qw.u2_datasets(3, 2))
     if tier == "quick":
-        return [(k, d) for k, d in qw.u4_datasets(1, 2, 1, "sorted") if not (len(k[2]) == 2 and k[3] == (None,))]
-    return [(k, d) for k, d in qw.u4_datasets(2, 2, 1, "sorted")]
+        # one company; two persons only with different types; no dangling machine next to two persons
+        return [(k, d) for k, d in qw.u4_datasets(1, 2, 1, "sorted")
+                if not (len(k[2]) == 2 and (k[3] == (None,) or k[2][0][0] == k[2][1][0]))]
+    one = [(k, d) for k, d in qw.u4_datasets(1, 2, 1, "sorted")]
+    # plus the two-company assignments of two persons in different / same / no company (no machines)
+    two = [(k, d) for k, d in qw.u4_datasets(2, 2, 0, "sorted") if k[1] == 2 and len(k[2]) == 2 and k[2][0][0] != k[2][1][0]]
+    return one + two
 
 
 _TERMS = {}
